@@ -64,6 +64,8 @@ func binaryFill(dt ref.DT, shape []int, salt int) *ref.T {
 		switch {
 		case dt == ref.Bool:
 			return float64((i*i + i/2 + 1 + salt) % 2)
+		case dt == ref.F64:
+			return k*0.75 - 3 + 1e-7/3 // not representable in float32
 		case dt.IsFloat():
 			return k*0.75 - 3
 		case dt.IsSigned():
